@@ -96,6 +96,29 @@ class RulesGen(WorldGen):
         self.on("atvinfo", t)
         return t
 
+    def make_atvs_same_block(self, endorsed_list, vparent=None):
+        """several honest ATVs (one per endorser: different payout infos, equal fees) in ONE VBK block"""
+        vparent = vparent or self.vtip
+        vid = "v%d" % self.nv
+        self.nv += 1
+        self.vbk[vid] = dict(parent=vparent, height=self.vbk[vparent]["height"] + 1)
+        tids, words = [], []
+        for e in endorsed_list:
+            tid = "t%d" % self.nt
+            self.nt += 1
+            payout = "bb%04x" % int(tid[1:])
+            self.atv[tid] = dict(endorsed=e, bop=vid, payout=payout, ctx=self.honest_ctx(e))
+            tids.append(tid)
+            words.append("%s:%s:%s" % (tid, e, payout))
+        self.emit("on %s atvn %s %s" % (self.inst, vparent, " ".join(words)), vid)
+        if self.vbk[vid]["height"] > self.vbk[self.vtip]["height"]:
+            self.vtip = vid
+        self.decl("vbk", vid, vparent, self.vbk[vid]["height"])
+        for tid, e in zip(tids, endorsed_list):
+            self.decl("atv", tid, e, vid, "honest")
+            self.on("atvinfo", tid)
+        return tids
+
     def make_xatv(self, endorsed, dh, k1, k2, vparent=None, payout="010203"):
         """ATV whose context info is tampered: height + dh, keystones replaced ("=" keeps)"""
         vparent = vparent or self.vtip
@@ -866,8 +889,35 @@ def case_mempool(rng):
     N = g.new_alt(tip)
     hN = g.alt[N]["height"]
     cands = [x for x in g.ancestry(tip) if x != "a0" and hN - g.alt[x]["height"] <= s]
-    atvs = [g.make_atv(e) for e in ([cands[0], cands[-1]] if len(cands) > 1 and r.chance(1, 2) else [r.choice(cands)])]
-    vt = [g.honest_vtb(g.alt[tip]["kbref"], fork=(0, 1))] if r.chance(1, 2) else []
+    atvs = []
+    mode = r.below(4)
+    if mode == 0:
+        atvs = [g.make_atv(e) for e in ([cands[0], cands[-1]] if len(cands) > 1 else [r.choice(cands)])]
+    else:
+        # several honest endorsers in ONE VBK block: equal fees, the same endorsed block (mode 1), any timely
+        # blocks (mode 2), or both kinds in two VBK blocks plus a single one (mode 3)
+        k = r.range(2, 4)
+        if mode == 1:
+            e = r.choice(cands)
+            atvs += g.make_atvs_same_block([e] * k)
+        elif mode == 2:
+            atvs += g.make_atvs_same_block([r.choice(cands) for _ in range(k)])
+        else:
+            e = r.choice(cands)
+            atvs += g.make_atvs_same_block([e] * 2)
+            atvs += g.make_atvs_same_block([r.choice(cands) for _ in range(k)])
+            atvs.append(g.make_atv(r.choice(cands)))
+    vt = []
+    vm = r.below(3)
+    if vm == 1:
+        vt = [g.honest_vtb(g.alt[tip]["kbref"], fork=(0, 1))]
+    elif vm == 2:
+        # two VTBs in one VBK block
+        ref = g.alt[tip]["kbref"]
+        vp = g.vtip
+        last = g.best_last(ref, vp)[-1]
+        bpar = g.btip if g.b_is_anc(last, g.btip) else last
+        vt = list(g.make_vtb2(r.choice(g.v_anc(vp, 3)), r.choice(g.v_anc(vp, 3)), last, vparent=vp, bparent=bpar))
     # predicted content = what set_pd computes for an honest body
     g.lines_before = len(g.lines)
     known = set(g.alt[tip]["kv"])
@@ -887,7 +937,8 @@ def case_mempool(rng):
         r.shuffle(order)          # any delivery order: the mempool keeps what does not connect yet
     for k, x in order:
         g.on("mpsub", k, x, tag=("mpvalid", x))
-    g.on("mpgen", N, tag=("mpgen", tuple(ctx), tuple(vt), tuple(atvs)))
+    g.on("mpgen", N, tag=("mpgen1",))
+    first = len(g.lines) - 1
     # mirror + declaration of the generated body (the registry body itself was set by mpgen)
     a = g.alt[N]
     a["ctx"], a["vtbs"], a["atvs"] = ctx, list(vt), list(atvs)
@@ -897,6 +948,13 @@ def case_mempool(rng):
     g.verdict(N, tag=("accept", N))
     for t in atvs:
         g.on("endorsed", t, N, tag=("endorsed", t))
+    # a second round: what could not be applied in the first one (a VTB delivered before the VTB it builds on) must
+    # come now; EVERY submitted honest payload has to appear in one of the generated bodies
+    N2 = g.new_alt(N)
+    g.on("mpgen", N2, tag=("mpgen", tuple(ctx), tuple(vt), tuple(atvs), first))
+    g.decl("pd", N2, "-", "-", "-")
+    g.show(N2)
+    g.verdict(N2, tag=("accept", N2))
     g.on("audit", tag=("audit",))
     g.meta = dict(mutation="mempool", planted=False, depth=hN, desc=0)
     return g
@@ -916,12 +974,13 @@ def eval_mempool_tags(g, res, prefix):
             def ids(part):
                 return set(x for x in part.split("=", 1)[1].split(",") if x)
             parts = got.split()
-            if len(parts) != 3:
-                bad.append((i + 1, line, list(tag), got))
+            prev = (res.get("%s.%d" % (prefix, tag[4] + 1)) or "").split()
+            if len(parts) != 3 or len(prev) != 3:
+                bad.append((i + 1, line, [tag[0]], got))
                 continue
-            c, w, t = ids(parts[0]), ids(parts[1]), ids(parts[2])
+            c, w, t = (ids(parts[k]) | ids(prev[k]) for k in range(3))
             if not (set(tag[3]) <= t and set(tag[2]) <= w and set(tag[1]) <= c):
-                bad.append((i + 1, line, [tag[0]] + [list(x) for x in tag[1:]], got))
+                bad.append((i + 1, line, [tag[0]] + [list(x) for x in tag[1:4]], " | ".join([" ".join(prev), got])))
     return bad
 
 
